@@ -16,7 +16,15 @@
 (*   {"k":"prim", "case":tuple, res, exact, tris, pos, cls, nrm}           *)
 (*        one solid primitive; pos * case.scale, cls = position class of   *)
 (*        every vertex (coincident positions merged at 1e-6), nrm = vertex *)
-(*        normal * 256 (empty when the mesh has none)                      *)
+(*        normal * 256 (empty when the mesh has none).  These fields are   *)
+(*        the observation made when the constructor returned.  `alt` holds *)
+(*        every FURTHER observation of the same case that differs from it  *)
+(*        (equal ones are not repeated, they would be judged the same):    *)
+(*        why = "kept": the mesh value the caller still holds, projected   *)
+(*        again after `after` later constructor calls of the same history; *)
+(*        why = "conc": a result of the same call made while other         *)
+(*        goroutines were constructing primitives (`peers` such calls).    *)
+(*        Every observation must be the solid of the case's parameters.    *)
 (* tris are 0-based vertex numbers of the returned mesh.                   *)
 (*                                                                         *)
 (* Every judgement is made here.  C09 is judged on the mesh's own vertex   *)
@@ -36,7 +44,7 @@ vars == <<l, prev, cnt>>
 
 NoPrev == [on |-> FALSE, case |-> [prim |-> "none"], deficit |-> <<>>]
 Zero == [grid |-> 0, gridtris |-> 0, shape |-> 0, shapetris |-> 0, shapeverts |-> 0, prim |-> 0, skipped |-> 0,
-         normals |-> 0, halves |-> 0, fine |-> 0]
+         normals |-> 0, halves |-> 0, fine |-> 0, kept |-> 0, conc |-> 0, alts |-> 0, near |-> 0]
 
 Init == l = 1 /\ prev = NoPrev /\ cnt = Zero
 
@@ -171,6 +179,10 @@ PrimJudge(ln, pv) ==
                   fine |-> outward /\ Counts(c)[1] >= 32 /\ Counts(c)[2] >= 32,
                   deficit |-> IF outward THEN Deficit(c, v6) ELSE <<>>, v6 |-> v6]
 
+\* a further observation of the same case, as a line of its own
+AltLine(ln, a) == [ln EXCEPT !.res = a.res, !.exact = a.exact, !.tris = a.tris, !.pos = a.pos, !.cls = a.cls,
+                             !.nrm = a.nrm]
+
 (* ------------------------- actions ------------------------------------ *)
 Report(bad, info) == IF bad = {} THEN TRUE ELSE PrintT(ToJson([l |-> l, bad |-> bad, info |-> info]))
 AtEnd == IF l = Len(Trace) THEN PrintT(ToJson([stats |-> cnt'])) ELSE TRUE
@@ -196,7 +208,13 @@ Shape ==
            bad == ShapeBad(ln)
        IN /\ Report(bad, [unpaired |-> Some(Unpaired(ln.tris)), res |-> ln.res, class |-> ShapeClass(ln, bad)])
           /\ cnt' = [cnt EXCEPT !.shape = @ + 1, !.shapetris = @ + Len(ln.tris),
-                                !.shapeverts = @ + Cardinality(UsedVerts(ln.tris))]
+                                !.shapeverts = @ + Cardinality(UsedVerts(ln.tris)),
+                                \* vertices of grazing scenes within 1e-4 cell of a lattice point
+                                \* (what those scenes are generated for; vacuity guard)
+                                !.near = @ + (IF ln.case.flavour = "graze" /\ ln.res = "OK" /\ IndexOK(ln)
+                                                 /\ Len(ln.off) = Len(ln.pos)
+                                              THEN Cardinality({v \in UsedVerts(ln.tris) : AtLatticePoint(ln.off[v + 1])})
+                                              ELSE 0)]
     /\ prev' = prev /\ AtEnd
     /\ l' = l + 1
 
@@ -204,11 +222,21 @@ Prim ==
     /\ l <= Len(Trace) /\ Trace[l].k = "prim"
     /\ LET ln == Trace[l]
            j == PrimJudge(ln, prev)
-       IN /\ Report(j.bad, [v6 |-> j.v6, ref |-> Ref6V(ln.case), band |-> Band6(ln.case), res |-> ln.res])
+           \* the other observations of this case are judged by the same contract
+           altbad == [i \in DOMAIN ln.alt |-> PrimJudge(AltLine(ln, ln.alt[i]), prev).bad]
+           failing == {i \in DOMAIN ln.alt : altbad[i] # {}}
+           allalt == UNION {altbad[i] : i \in failing}
+           why == IF failing = {} THEN "" ELSE ln.alt[CHOOSE i \in failing : \A k \in failing : i <= k].why
+       IN /\ Report(j.bad \cup allalt,
+                    [v6 |-> j.v6, ref |-> Ref6V(ln.case), band |-> Band6(ln.case), res |-> ln.res,
+                     \* predicates that only a later / concurrent observation violates, and which one
+                     altonly |-> allalt \ j.bad, why |-> why, after |-> ln.after, peers |-> ln.peers])
           /\ prev' = IF ln.case.chain >= 1 /\ j.judged
                      THEN [on |-> TRUE, case |-> ln.case, deficit |-> j.deficit] ELSE prev
           /\ cnt' = [cnt EXCEPT !.prim = @ + B(j.judged), !.skipped = @ + B(~j.judged /\ j.bad = {}),
-                                !.normals = @ + B(j.normals), !.halves = @ + B(j.halves), !.fine = @ + B(j.fine)]
+                                !.normals = @ + B(j.normals), !.halves = @ + B(j.halves), !.fine = @ + B(j.fine),
+                                !.kept = @ + B(j.judged /\ ln.after > 0), !.conc = @ + B(j.judged /\ ln.peers > 0),
+                                !.alts = @ + Len(ln.alt)]
     /\ AtEnd
     /\ l' = l + 1
 
